@@ -122,10 +122,36 @@ func VerifC06AddMountRace() {
 	root, err := mem.NewFS()
 	verifAssert(err == nil, "NewFS")
 	verifAssert(root.Mkdir("d", 0755) == nil, "Mkdir d")
+	refused := verifChoice("point", 2) == 1
+	if refused {
+		// the point is a regular file: every attempt is refused, and a refused mount is never visible - neither
+		// to a concurrent attempt (which must not see "already mounted") nor in the table
+		verifTag("point", "regular-file")
+		verifAssert(hackpadfs.WriteFullFile(root, "d/f", []byte{1}, 0644) == nil, "WriteFullFile d/f")
+	}
 	fs, err := NewFS(root)
 	verifAssert(err == nil, "mount.NewFS")
 	n := verifParam("GOROUTINES")
 	errs := make([]error, n)
+	if refused {
+		var wg sync.WaitGroup
+		wg.Add(n)
+		for i := 0; i < n; i++ {
+			i := i
+			m, _ := mem.NewFS()
+			go func() {
+				errs[i] = fs.AddMount("d/f", m)
+				wg.Done()
+			}()
+		}
+		wg.Wait()
+		verifReach("race-done")
+		for _, e := range errs {
+			verifAssert(e != nil && errors.Is(e, hackpadfs.ErrNotDir), "AddMount at a regular file must fail with ErrNotDir, whatever runs concurrently")
+		}
+		verifAssert(len(fs.MountPoints()) == 0, "a refused mount is registered")
+		return
+	}
 	var wg sync.WaitGroup
 	wg.Add(n)
 	for i := 0; i < n; i++ {
